@@ -63,3 +63,20 @@ def doc_records(table):
             recs.append({"kind": "doc", "f": f["name"], "ast": {"op": "call", "f": f["name"], "args": args}, "ctx": ctx_of(inp), "expect": expect,
                          "_text": "(%s %s)" % (f["name"], " ".join(ex["args"])), "_input": ex["input"]})
     return recs
+
+
+def funcs_file(table):
+    """The function table as an NDJSON file for Trace_Syntax.tla (IOEnv.FUNCS)."""
+    import os
+    p = os.path.join(WORK, "funcs-%d.ndjson" % os.getpid())
+    os.makedirs(WORK, exist_ok=True)
+    rows = []
+    for f in table.funcs:
+        for nm in [f["name"]] + f["aliases"]:
+            rows.append({"name": X.cps(nm), "canon": f["name"], "min": f["min"], "max": f["max"]})
+    write_ndjson(p, rows)
+    return p
+
+
+def is_ascii(s):
+    return all(ord(c) < 128 for c in s)
